@@ -199,6 +199,15 @@ def run_tlc(
     cfg never touch /verif/spec).  `env` is added to the environment (JSON file paths
     read with IOEnv).  Returns a TLCResult; raises TLCError on machinery failure.
     """
+    # on a busy machine more worker threads than free cores only add contention
+    try:
+        load = os.getloadavg()[0]
+        if load > 48:
+            workers = min(workers, 4)
+        elif load > 20:
+            workers = min(workers, 8)
+    except OSError:
+        pass
     os.makedirs(workdir, exist_ok=True)
     for f in os.listdir(spec_dir):
         if f.endswith(".tla"):
